@@ -85,6 +85,23 @@ Theorem C20_families_refuted :
 Proof. exact families_refuted. Qed.
 Print Assumptions C20_families_refuted.
 
+(* ---------- host/port override, boolean spellings, the defaults the model reads ---------- *)
+Theorem C20_hostport : forall hm pm, hostport_override hm pm = hostport_spec hm pm.
+Proof. exact hostport_table. Qed.
+Print Assumptions C20_hostport.
+
+(* asbool(s) is true exactly for t / true / y / yes / on / 1, whatever the case and the surrounding whitespace *)
+Theorem C20_asbool_spelling : forall s,
+  asbool (VStr s) = Ok (memstr (lower_latin1 (strip_by is_str_ws s)) spec_truthy).
+Proof. exact asbool_spelling. Qed.
+Print Assumptions C20_asbool_spelling.
+
+Theorem C20_defaults :
+  default_host = [48;46;48;46;48;46;48] /\ default_port = 8080 /\ default_ipv4 = true /\ default_ipv6 = true
+  /\ defaults_proxy_and_sockets_empty = true /\ assign_loop_standard = true.
+Proof. exact defaults_match. Qed.
+Print Assumptions C20_defaults.
+
 (* ---------- the middleware switch in server.py ---------- *)
 Theorem C20_middleware : forall tp clear, middleware_installed tp clear = tp || clear.
 Proof. exact middleware_table. Qed.
